@@ -277,6 +277,26 @@ class SimpleTypes:
                 and dotted(test.operand.func) == "isinstance" and self._is_value(test.operand.args[0], env):
             acc.meet_kind(self._kind_of_types(test.operand.args[1], f))
             return
+        if isinstance(test, ast.UnaryOp) and isinstance(test.op, ast.Not) and isinstance(test.operand, ast.Compare) \
+                and len(test.operand.ops) == 2 and self._is_value(test.operand.comparators[0], env):
+            # raise if not (a <[=] value <[=] b)
+            c = test.operand
+            lo = self._const(c.left, f, cls, env)
+            hi = self._const(c.comparators[1], f, cls, env)
+            if isinstance(lo, (int, float)) and isinstance(hi, (int, float)) and all(
+                    isinstance(o, (ast.Lt, ast.LtE)) for o in c.ops):
+                acc.meet_lo(_frac(c.left, lo), isinstance(c.ops[0], ast.Lt))
+                acc.meet_hi(_frac(c.comparators[1], hi), isinstance(c.ops[1], ast.Lt))
+                if acc.kind == "any":
+                    acc.kind = "num"
+                return
+        if isinstance(test, ast.Compare) and len(test.ops) == 1 and self._is_value(test.comparators[0], env) \
+                and not self._is_value(test.left, env) and isinstance(test.ops[0], (ast.Lt, ast.LtE, ast.Gt, ast.GtE)):
+            # constant on the left: c < value  ==  value > c
+            flip = {ast.Lt: ast.Gt, ast.LtE: ast.GtE, ast.Gt: ast.Lt, ast.GtE: ast.LtE}[type(test.ops[0])]
+            test = ast.Compare(left=test.comparators[0], ops=[flip()], comparators=[test.left])
+            ast.copy_location(test, test.left)
+            test.lineno = getattr(test.comparators[0], "lineno", 0)
         if isinstance(test, ast.Compare) and len(test.ops) == 1:
             l, op, r = test.left, test.ops[0], test.comparators[0]
             if self._is_value(l, env):
@@ -327,7 +347,15 @@ class SimpleTypes:
     def _start_ival(self, acc):
         if acc.kind not in ("int", "num"):
             return None
-        return Ival(acc.lo, acc.hi, acc.lo_open, acc.hi_open, integral=(acc.kind == "int"))
+        if acc.kind == "int":
+            # integers: normalise open bounds to the nearest attained integer
+            lo, hi = acc.lo, acc.hi
+            if lo is not None:
+                lo = Fraction(math.floor(lo) + 1) if (acc.lo_open and lo.denominator == 1) else Fraction(math.ceil(lo))
+            if hi is not None:
+                hi = Fraction(math.ceil(hi) - 1) if (acc.hi_open and hi.denominator == 1) else Fraction(math.floor(hi))
+            return Ival(lo, hi, False, False, integral=True)
+        return Ival(acc.lo, acc.hi, acc.lo_open, acc.hi_open, integral=False)
 
     def _to_xml(self, f, cls, acc, depth):
         if depth > 6:
